@@ -943,6 +943,19 @@ func (state *RuntimeState) checkAuth(w http.ResponseWriter, r *http.Request, req
 				}
 			}
 			if authData.Username != "" {
+				// Handlers upgrade whatever session cookie accompanies the
+				// request: never let a certificate for one user act on the
+				// session of another.
+				for _, cookie := range r.Cookies() {
+					if cookie.Name != authCookieName {
+						continue
+					}
+					info, err := state.getAuthInfoFromAuthJWT(cookie.Value)
+					if err == nil && info.Username != authData.Username {
+						state.writeFailureResponse(w, r, http.StatusUnauthorized, "")
+						return nil, errors.New("certificate and session cookie belong to different users")
+					}
+				}
 				state.logger.Debugf(4, "returning tls cert authinfo")
 				return &authData, nil
 			}
